@@ -166,6 +166,7 @@ func runAll(c *fw.Ctx) {
 	pool := g.definite(xs)
 	pool = append(pool, g.texts(ts)...)
 	g.headers()
+	g.transport(xs)
 	g.pairwise(xs)
 	g.sequence(xs)
 	g.deep(xs)
@@ -328,6 +329,42 @@ func (g *generator) definite(xs []seedDoc) []Body {
 		}
 	}
 	return pool
+}
+
+// transport: the body breaks off - its reader fails, or the wire does - after
+// a strict prefix of a valid document: nothing at all, one byte, half of it,
+// everything but the end of the root element. What the server holds is
+// unparseable by construction (label "body:unreadable"): never 2xx, never a
+// mutation, whichever way the break-off shows (connection reset, unexpected
+// EOF, cancelled context, a front-end's size limit, empty reads first, an
+// invalid chunk size, fewer bytes than Content-Length announced).
+func (g *generator) transport(xs []seedDoc) {
+	faults := []string{"reset", "unexpected-eof", "canceled", "max-bytes", "zero-reads"}
+	wires := []string{"chunked-bad-size", "short-content-length"}
+	for si, sd := range xs {
+		rts := routesFor(sd.Fam)
+		doc := render(sd.Tree, si%2 == 0)
+		_, re := rootSpan(doc)
+		if re < 4 {
+			continue
+		}
+		for oi, off := range []int{0, 1, re / 2, re - 1} {
+			b := Body{Data: doc[:off:off], Doc: sd.Fam, Mut: "transport-prefix", Partial: true}
+			for ri, r := range rts {
+				if !g.c.Thorough() && (ri+oi+si)%3 != 0 {
+					continue
+				}
+				for _, f := range faults {
+					r, b, f, ri := r, b, f, ri
+					g.emit(func() *Case { cs := r.mk("transport", b, ri); cs.Fault = f; return cs })
+				}
+				for _, w := range wires {
+					r, b, w, ri := r, b, w, ri
+					g.emit(func() *Case { cs := r.mk("transport", b, ri); cs.Wire = w; return cs })
+				}
+			}
+		}
+	}
 }
 
 // texts: iCalendar / vCard mutants.
